@@ -304,6 +304,23 @@ Proof.
   - rewrite (bspline_indep m i), (bspline_indep m (i + 1)) by lia. reflexivity.
   - rewrite (IH i), (IH (i + 1)) by lia. reflexivity.
 Qed.
+Lemma bspline_left_indep : forall m i, 0 <= i -> i + Z.of_nat m + 1 <= nknots - 1 + Z.of_nat n -> bspline_left kn m x i = bspline_left kn' m x i.
+Proof.
+  induction m as [|m IH]; intros i Hi0 Hi1; cbn [bspline_left].
+  - rewrite (Hagree i) by lia. rewrite (Hagree (i + 1)) by lia. reflexivity.
+  - rewrite (IH i) by lia. rewrite (IH (i + 1)) by lia.
+    rewrite (Hagree i), (Hagree (i + Z.of_nat (S m))), (Hagree (i + Z.of_nat (S m) + 1)), (Hagree (i + 1)) by lia. reflexivity.
+Qed.
+Lemma bspline_deriv_left_indep : forall m i k, 0 <= i -> i + Z.of_nat m + 1 <= nknots - 1 + Z.of_nat n ->
+  bspline_deriv_left kn m x i k = bspline_deriv_left kn' m x i k.
+Proof.
+  induction m as [|m IH]; intros i k Hi0 Hi1; cbn [bspline_deriv_left]; [reflexivity|].
+  rewrite (Hagree i), (Hagree (i + Z.of_nat (S m))), (Hagree (i + Z.of_nat (S m) + 1)), (Hagree (i + 1)) by lia.
+  destruct k as [|[|k]].
+  - rewrite (bspline_left_indep m i), (bspline_left_indep m (i + 1)) by lia. reflexivity.
+  - rewrite (bspline_left_indep m i), (bspline_left_indep m (i + 1)) by lia. reflexivity.
+  - rewrite (IH i), (IH (i + 1)) by lia. reflexivity.
+Qed.
 End KnotsTop.
 
 (* ============================================================================================== *)
